@@ -122,6 +122,10 @@ pub struct Facts {
     pub starts: usize,
     pub starts_after_interrupt: Option<usize>,
     pub interrupt_before_first_poll: bool,
+    /// The signal was sent by a user future from inside a poll.
+    pub mid_poll_signal: bool,
+    /// Starts after a mid-poll signal of functions that were ready when it was sent (excused).
+    pub excused_after_mid_signal: usize,
     pub idle_points: usize,
     pub failed_started: usize,
     pub all_started: bool,
@@ -235,6 +239,7 @@ pub fn analyze_s<M: Mask>(info: &Info<M>, cfg: &RunCfg, res: &RunRes, out: &mut 
                 // ready queue (a concurrent call dequeues before it polls what it holds)
                 int_at = Some(start_order.len());
                 f.interrupt_before_first_poll = false;
+                f.mid_poll_signal = true;
                 let mut m = M::zero(n);
                 for i in 0..n {
                     if !started.get(i) && !info.built_direct(i, rev).and_not(&ended).any() {
@@ -357,7 +362,8 @@ pub fn analyze_s<M: Mask>(info: &Info<M>, cfg: &RunCfg, res: &RunRes, out: &mut 
         let mut after = start_order.len() - k;
         if let (Some(m), true) = (&ready_at_mid, concurrent) {
             // mid-poll signal, concurrent call: only functions that became ready after the signal count
-            after = start_order[k..].iter().filter(|&&i| !m.get(i)).count();
+            f.excused_after_mid_signal = start_order[k..].iter().filter(|&&i| m.get(i)).count();
+            after -= f.excused_after_mid_signal;
         }
         let bound = match cfg.strat {
             Strat::Finish | Strat::NextN(0) => {
